@@ -79,6 +79,8 @@ def judge(ctx, results, prop):
         samples += r["rep"]["samples"][:2]
     if prop == "C07" and sum(r["rep"]["crash_edges"] for r in results) == 0:
         raise vlib.ToolError("vacuous: no crash / restart edge")
+    if prop == "C07" and sum(r["rep"].get("failed_start_edges", 0) for r in results) == 0:
+        raise vlib.ToolError("vacuous: no start that met a storage read error")
     if prop == "C02" and sum(r["rep"]["failed_storage_edges"] for r in results) == 0:
         raise vlib.ToolError("vacuous: no storage failure edge")
     if prop == "C02" and sum(r["rep"].get("effective_purge_failures", 0) for r in results) == 0:
@@ -88,7 +90,7 @@ def judge(ctx, results, prop):
         "traces_validated_against_impl": sum(r["rep"]["evaluations"] for r in results),
         "samples": samples[:5], "exhaustive": True, "drift_edges": sum(r["rep"]["drift"] for r in results),
         "configs": [dict(name=r["name"], constants=r["constants"], mc_distinct=r["mc"]["distinct"], mc_generated=r["mc"]["generated"],
-                         replayed_edges=r["rep"]["evaluations"], by_kind=r["rep"]["by_kind"], crash_edges=r["rep"]["crash_edges"],
+                         replayed_edges=r["rep"]["evaluations"], by_kind=r["rep"]["by_kind"], crash_edges=r["rep"]["crash_edges"], failed_start_edges=r["rep"].get("failed_start_edges"),
                          failed_storage_edges=r["rep"]["failed_storage_edges"], effective_purges=r["rep"].get("effective_purges"),
                          effective_purge_failures=r["rep"].get("effective_purge_failures"), drift=r["rep"]["drift"]) for r in results],
         "checker_cmd": results[0]["mc"]["cmd"],
